@@ -4,6 +4,7 @@ from vf.unit import NativeUnit, sweep
 from vf.model import *
 
 CID_TEXT = "d,format,delimited\nf,id,,,,Integer\nf,kind\nc,u,IsUnique,id\nc,k,DistinctCount,kind < 3\n"
+FIXED_CID_TEXT = "d,format,fixed\nd,line delimiter,lf\nf,id,,,1,Integer\nf,kind,,,1\nc,u,IsUnique,id\nc,k,DistinctCount,kind < 3\n"
 CLEAN = "1,a\n2,b\n"; DUP = "1,a\n1,b\n"; MANY = "1,a\n2,b\n3,c\n"        # MANY fails the distinct count at the end
 OPS = ["read_clean", "read_dup", "read_many", "abandon1", "abandon2", "read_noclose", "write", "write_close", "write_dup", "two_readers"]
 
@@ -11,24 +12,26 @@ OPS = ["read_clean", "read_dup", "read_many", "abandon1", "abandon2", "read_nocl
 def run_op(cid, op):
     """outcome of one run as a comparable value"""
     from cutplace import validio, errors
+    fixed = cid.data_format.format == "fixed"
+    def T(text): return text.replace(",", "") if fixed else text
     def outcome(f):
         try: return ("ok", f())
         except errors.DataError as e: return ("DataError", type(e).__name__, str(e.location), e.message[:40])
     if op in ("read_clean", "read_dup", "read_many"):
         text = {"read_clean": CLEAN, "read_dup": DUP, "read_many": MANY}[op]
-        return outcome(lambda: [r for r in validio.rows(cid, io.StringIO(text))])
+        return outcome(lambda: [r for r in validio.rows(cid, io.StringIO(T(text)))])
     if op in ("abandon1", "abandon2"):
         def f():
-            g = validio.rows(cid, io.StringIO(MANY)); got = [next(g) for _ in range(1 if op == "abandon1" else 2)]; g.close(); return got
+            g = validio.rows(cid, io.StringIO(T(MANY))); got = [next(g) for _ in range(1 if op == "abandon1" else 2)]; g.close(); return got
         return outcome(f)
     if op == "two_readers":
         def f():
-            r1 = validio.Reader(cid, io.StringIO(CLEAN)); r2 = validio.Reader(cid, io.StringIO(CLEAN))       # both created before either runs
+            r1 = validio.Reader(cid, io.StringIO(T(CLEAN))); r2 = validio.Reader(cid, io.StringIO(T(CLEAN)))       # both created before either runs
             a = [x for x in r1.rows()]; r1.close(); b = [x for x in r2.rows()]; r2.close(); return (a, b)
         return outcome(f)
     if op == "read_noclose":
         def f():
-            r = validio.Reader(cid, io.StringIO(CLEAN)); return [x for x in r.rows()]      # never closed
+            r = validio.Reader(cid, io.StringIO(T(CLEAN))); return [x for x in r.rows()]      # never closed
         return outcome(f)
     if op in ("write", "write_close", "write_dup"):
         def f():
@@ -45,8 +48,10 @@ def run_op(cid, op):
 def unit_history_sweep():
     def run(ctx):
         from cutplace import interface
-        fresh_outcome = {op: run_op(interface.create_cid_from_string(CID_TEXT), op) for op in OPS}
+        fresh_outcome = {(t, op): run_op(interface.create_cid_from_string(t), op) for op in OPS for t in (CID_TEXT, FIXED_CID_TEXT)}
         def cases():
+            for n in (1, 2):
+                for seq in itertools.product(OPS, repeat=n): yield ("FIXED",) + seq
             for n in (1, 2, 3):
                 yield from itertools.product(OPS, repeat=n)
             if ctx.thorough:
@@ -60,13 +65,15 @@ def unit_history_sweep():
                     k += 1
                     if k % 9 == 0: yield seq
         def check(seq):
-            cid = interface.create_cid_from_string(CID_TEXT)
+            text = CID_TEXT
+            if seq and seq[0] == "FIXED": text = FIXED_CID_TEXT; seq = seq[1:]
+            cid = interface.create_cid_from_string(text)
             for i, op in enumerate(seq):
                 got = run_op(cid, op)
-                if got != fresh_outcome[op]:
-                    return {"expected": "run %d (%s) behaves as on a freshly loaded CID: %r" % (i + 1, op, fresh_outcome[op]), "observed": repr(got)}
+                if got != fresh_outcome[(text, op)]:
+                    return {"expected": "run %d (%s) behaves as on a freshly loaded CID: %r" % (i + 1, op, fresh_outcome[(text, op)]), "observed": repr(got)}
             return None
         return [sweep("C08/history/every run equals the same run on a fresh CID", cases(), check, "bounded",
-                      "all sequences of 1-3 operations and every 9th sequence of 4 (all of them + 2000 random sequences of 5-9 in thorough) over %s on one CID object with IsUnique and DistinctCount checks" % OPS,
+                      "all sequences of 1-3 operations and every 9th sequence of 4 (all of them + 2000 random sequences of 5-9 in thorough) over %s on one CID object with IsUnique and DistinctCount checks (delimited; sequences of 1-2 also on a fixed-format CID)" % OPS,
                       describe=lambda s: {"operations": list(s)}, function="validio.rows / Reader / Writer on one Cid", unit="C08.history")]
     return NativeUnit("C08.history", "bounded exploration of operation histories on one CID object", ["C08"], run, kind="bounded")
